@@ -39,6 +39,6 @@ void h_verify_ref(void)
     __CPROVER_assert(!v || (p.error_flags == BINSON_ERROR_NONE && p.buffer_used == 0),
                      "a successful verify leaves no error and the cursor at the start");                      /*@ B/verify-canonical */
     __CPROVER_assert(v || p.error_flags != BINSON_ERROR_NONE, "a failed verify leaves an error code");        /*@ B/verify-false-has-error */
-    if (v) { __CPROVER_assert(0, "vacuity control: an accepted document of this length exists"); }
+    /* (an accepted document does not exist for every length, e.g. 3-byte objects: not required) */
     if (!v) { __CPROVER_assert(0, "vacuity control: a rejected document of this length exists"); }
 }
